@@ -45,7 +45,18 @@ func (k msgServer) ClaimReward(goCtx context.Context, msg *types.MsgClaimReward)
 		return nil, err
 	}
 
+	workerRewardBeforeRepay := workerReward
 	k.RepayPledgeDebt(ctx, msg.Creator, []*sdk.Coin{&claimReward, &workerReward})
+
+	// collateral debt repaid out of storage income: the coins are in the market
+	// escrow and have to back the pledge in the node escrow from now on
+	if workerReward.IsLT(workerRewardBeforeRepay) {
+		repaid := workerRewardBeforeRepay.Sub(workerReward)
+		err := k.bank.SendCoinsFromModuleToModule(ctx, markettypes.ModuleName, types.ModuleName, sdk.Coins{repaid})
+		if err != nil {
+			return nil, err
+		}
+	}
 
 	if !claimReward.IsZero() {
 		logger.Debug("CoinTrace: block reward", "from", types.ModuleName, "to", msg.GetSigners()[0], "amount", claimReward.String())
